@@ -217,7 +217,12 @@ def crossing_lint(D, tagged, base_of, input_domain, storage, sampled_inputs=()):
         # value, see next_inputs); through logic they would change unseen by the fault model
         for x in leaves(list_signals(impl.i)):
             if x in input_domain and not (x in sampled_inputs and impl.i is x):
-                raise MachineryError(f"synchroniser into {impl.odomain} samples environment input {nm(x)} in a way the fault model does not follow")
+                # a synchroniser fed by combinational logic of the other domain: its first flop can latch a glitch of that logic and a
+                # source pulse shorter than a destination period is simply not seen - not a registered crossing (and nothing the
+                # per-flop fault model could follow)
+                out.append(("struct.comb_into_synchroniser", f"the synchroniser into domain {impl.odomain} samples combinational logic of the other "
+                            f"domain (input {nm(x)} through logic), not a register"))
+                break
         allowed = impl.regs[1] if len(impl.regs) > 1 else None
         readers = [t for m in (comb, sync) for t, rd in m.items() if r0 in rd and t is not allowed and t is not r0]
         if readers:
@@ -1055,9 +1060,26 @@ class MonitorPulseHarness(CdcHarness):
             from litex.soc.interconnect import stream
             self.ep = stream.Endpoint([("data", 1)])
             mon = stream.Monitor(self.ep, count_width=2, clock_domain="b", with_tokens=True)
-            self.ps = [x for n, x in mon._submodules if isinstance(x, PulseSynchronizer)]
-            if len(self.ps) != 2:
-                raise MachineryError("stream.Monitor: expected two PulseSynchronizers (reset, latch)")
+            # the strobes as the counter sees them in domain b, whatever carries them across: the conditions of the counter's two
+            # register updates, `If(reset, ..).Elif(enable, ..)` and `If(reset, ..).Elif(latch, ..)`
+            from migen.fhdl.structure import If as _If, Signal as _Sig
+            sy = mon.token_counter._fragment.sync.get("b", [])
+            flat = []
+            def walk(x):
+                for y in (x if isinstance(x, (list, tuple)) else [x]):
+                    if isinstance(y, (list, tuple)):
+                        walk(y)
+                    else:
+                        flat.append(y)
+            walk(sy)
+            ifs = [x for x in flat if isinstance(x, _If)]
+            try:
+                rst_b = ifs[0].cond
+                lat_b = ifs[1].f[0].cond            # the Elif of the second statement
+                assert isinstance(rst_b, _Sig) and isinstance(lat_b, _Sig) and ifs[1].cond is rst_b
+            except Exception:
+                raise MachineryError("stream.Monitor: could not locate the reset / latch strobes of the token counter")
+            self.strobes = (rst_b, lat_b)
             self.lines = (mon.reset, mon.latch)
             return ClockDomainsRenamer({"sys": "a"})(mon)
         CdcHarness.__init__(self, name, mk, "sim", fault)
@@ -1066,7 +1088,7 @@ class MonitorPulseHarness(CdcHarness):
     def bind(self, D):
         self.bind_cdc(D)
         self.L = [D.i(s) for s in self.lines]
-        self.Oo = [D.i(p.o) for p in self.ps]
+        self.Oo = [D.i(x) for x in self.strobes]
 
     def input_domains(self):
         d = {x: "a" for x in self.lines}
